@@ -32,7 +32,8 @@ class C14(Prop):
     level_note = 'partial: corners and whole-drawing statements by correspondence plus oracle; observation O1 (degenerate marked stubs) is reported, not failed'
     def make(self, gen, rows, x, y, meta):
         text = gens.place(rows, x, y)
-        return Item(gen, {'main': Run(text, '', 'settings')}, dict(meta, text=text, off=[x, y]))
+        sc = meta.get('scale', '8')
+        return Item(gen, {'main': Run(text, '' if sc == '8' else 'scale=%s' % sc, 'settings')}, dict(meta, text=text, off=[x, y]))
     def items(self, rng, tier):
         out = []
         lens = list(range(1, 9)) + [12, 25, 40] if tier == 'quick' else list(range(1, 41))
@@ -43,7 +44,8 @@ class C14(Prop):
                     tipcell = (n * d[0], n * d[1]); cells[tipcell] = g
                     rows, (ox, oy) = render(cells)
                     x = rng.choice([0, 1, 4]); y = rng.choice([0, 1, 3])
-                    out.append(self.make('arrow', rows, x, y, {'kind': 'arrow', 'dir': list(d), 'tip_cell': [tipcell[0] + ox + x, tipcell[1] + oy + y], 'glyph': g, 'n': n}))
+                    out.append(self.make('arrow', rows, x, y, {'kind': 'arrow', 'dir': list(d), 'tip_cell': [tipcell[0] + ox + x, tipcell[1] + oy + y], 'glyph': g, 'n': n,
+                                                               'scale': rng.choice(['8', '8', '10', '5', '4', '1'])}))
         for b in '*oO':
             for ch, d in (('-', (1, 0)), ('|', (0, 1)), ('\\', (1, 1)), ('/', (-1, 1))):
                 for n in (1, 2, 5):
@@ -53,7 +55,7 @@ class C14(Prop):
                         else: cells = {(i * d[0], i * d[1]): ch for i in range(2 * n + 1)}; bc = (n * d[0], n * d[1]); cells[bc] = b
                         rows, (ox, oy) = render(cells)
                         x = rng.choice([0, 2]); y = rng.choice([0, 1])
-                        out.append(self.make('bullet', rows, x, y, {'kind': 'bullet', 'bullet': b, 'cell': [bc[0] + ox + x, bc[1] + oy + y]}))
+                        out.append(self.make('bullet', rows, x, y, {'kind': 'bullet', 'bullet': b, 'cell': [bc[0] + ox + x, bc[1] + oy + y], 'scale': rng.choice(['8', '8', '10', '5'])}))
         sizes = [(w, h) for w in range(1, 31) for h in range(1, 16)]
         if tier == 'quick': sizes = [(w, h) for w in (1, 2, 5) for h in (1, 2, 4)] + [(rng.randint(1, 30), rng.randint(1, 15)) for _ in range(25)]
         for w, h in sizes:
@@ -93,7 +95,8 @@ class C14(Prop):
             if any(e.tag == 'text' for e in els): out.append('the arrowhead character is also shown as text')
         elif kind == 'bullet':
             b = it.meta['bullet']; c, r = it.meta['cell']
-            centre = (F(8 * c + 4), F(16 * r + 8))
+            sc = F(it.meta.get('scale', '8'))
+            centre = (sc * c + sc / 2, 2 * sc * r + sc)
             if any(e.tag == 'text' and b in e.text() for e in els): out.append('the bullet %r is shown as text' % b)
             hit = False; degenerate = 0
             for a, bb, cls in lines():
